@@ -7,7 +7,7 @@ from vf.ob import obligation, shard
 from tartiflette import Resolver, Subscription
 
 META = {
-    "bounds": "7 subscription documents (non-null root field, alias, fragment, literal/variable/default arguments, nested selection with a non-null leaf) + 3 invalid requests; event sequences of "
+    "bounds": "7 subscription documents (non-null root field, alias, fragment, literal/variable/default arguments, nested selection with a non-null leaf) + 12 invalid requests (unknown field / directive, missing or ill-typed variable, ill-typed literal, several root fields directly and through sibling / nested fragments); event sequences of "
               "length 0..3 (0..2 in the quick tier) over unbounded ints / None (payloads that are well-formed, provoke a field error, or are null); gated source and gated consumer",
     "outside": "more than 3 events per stream; several concurrent subscriptions on one engine (C15 covers execute)",
     "explanation": "Each yielded response is compared with the response the payload must produce (C01/C02 semantics), position by position; source call counter and coerced source arguments checked.",
@@ -87,6 +87,11 @@ DOCS = [
 ]
 BAD = [
     ("subscription { nope }", {}), ("subscription S($n: Int!) { tick(n: $n) }", {}), ("subscription S($n: Int) { tick(n: $n) }", {"n": "str"}), ("subscription { tick ev { n } }", {}),
+    # more than one root field, the second one reached through fragments placed next to the first selection
+    ("subscription { tick ...F } fragment F on Subscription { ev { n } }", {}), ("subscription { tick ... on Subscription { ev { n } } }", {}),
+    ("subscription { ...A ...B } fragment A on Subscription { tick } fragment B on Subscription { ev { n } }", {}), ("subscription { ... on Subscription { tick } x: tick }", {}),
+    ("subscription { ...A } fragment A on Subscription { ...B ev { n } } fragment B on Subscription { tick }", {}),
+    ("subscription A { tick } subscription B { tick ev { n } }", {}), ("subscription { tick @nope }", {}), ("subscription { ev(k: \"s\") { n } }", {}),
 ]
 
 
@@ -202,8 +207,8 @@ def c14_stream(events: List[Optional[int]], arg: Optional[int], argmode: int, ga
 
 
 @obligation(tier="quick", timeout=120, samples=[{"k": 0, "events": [1]}, {"k": 2, "events": []}],
-            symbolic=["events: List[Optional[int]] the source would produce"], selectors=["k: invalid request (unknown field / missing required variable / ill-typed variable / two root fields)"],
-            bounds="4 invalid requests",
+            symbolic=["events: List[Optional[int]] the source would produce"], selectors=["k: invalid request (unknown field / directive, missing or ill-typed variable, ill-typed literal, several root fields directly or through sibling / nested fragments, in another operation)"],
+            bounds="12 invalid requests",
             note="a request failing validation or variable coercion yields exactly one errors-only response and the source is never started")
 def c14_invalid(k: int, events: List[Optional[int]]) -> bool:
     """
